@@ -351,6 +351,60 @@ theorem C04_enter_submits_all (len h0 n : Nat) (hw : WfLen len) (mvs : List Mv) 
   have := h.acc
   rw [List.take_of_length_le (by omega)]
 
+/-! ### SQPOLL: the kernel thread and `IORING_SQ_NEED_WAKEUP` -/
+
+/-- The invariant does not depend on the kernel thread's state. -/
+theorem inv_set_asleep {h0 : Nat} {s : St} (h : Inv h0 s) (b : Bool) :
+    Inv h0 { s with asleep := b } :=
+  ⟨h.wf, h.slen, h.h0H, h.HT, h.TH, h.acc, h.win, h.cons, h.lock, h.thr⟩
+
+theorem consumeN_asleep (n : Nat) (s : St) : (consumeN n s).asleep = s.asleep := by
+  induction n generalizing s with
+  | zero => rfl
+  | succ k ih =>
+    simp only [consumeN]; rw [ih]
+    unfold stepKernel; split <;> rfl
+
+/-- **SQPOLL rings: an idle kernel thread is woken by `enter`, and then every
+accepted submission reaches the kernel.** While the thread is idle it consumes
+nothing (`stepKernelKt` is the identity), so entries published in that state
+reach the kernel only through the wake-up that `Shared::enter` requests when it
+sees `IORING_SQ_NEED_WAKEUP`; after that call the kernel has copied every entry
+accepted so far, exactly once, in order and untorn — for every reachable queue
+state and every value of the 32-bit counters. -/
+theorem C04_enter_wakes_kernel_thread (h0 : Nat) (s : St) (h : Inv h0 s) (ha : s.asleep = true) :
+    (stepKernelKt s).1 = s ∧
+    (let s' := (stepEnterKt s).1
+     s'.asleep = false ∧ s'.H = s.T ∧ s'.T = s.T ∧ s'.accepted = s.accepted ∧
+       s'.consumed = s.accepted.map some ∧ Inv h0 s') := by
+  refine ⟨by simp [stepKernelKt, ha], ?_⟩
+  intro s'
+  have hs' : s' = consumeN (s.T - s.H) { s with asleep := false } := by
+    show (stepEnterKt s).1 = _
+    simp [stepEnterKt, ha]
+  have hw : Inv h0 { s with asleep := false } := inv_set_asleep h false
+  have hsp := consumeN_spec (s.T - s.H) { s with asleep := false } (by have := h.HT; show s.H + (s.T - s.H) ≤ s.T; omega)
+  have h' : Inv h0 s' := by
+    rw [hs', consumeN_eq_runMv]; exact inv_runMv hw _
+  have hH : s'.H = s.T := by rw [hs', hsp.1]; have := h.HT; show s.H + (s.T - s.H) = s.T; omega
+  have hA : s'.accepted = s.accepted := by rw [hs', hsp.2.2]
+  refine ⟨by rw [hs', consumeN_asleep], hH, by rw [hs', hsp.2.1], hA, ?_, h'⟩
+  rw [h'.cons, hH, hA]
+  have := h.acc
+  rw [List.take_of_length_le (by omega)]
+
+/-- A running kernel thread needs no wake-up: `enter` changes nothing, the entries are
+consumed by the thread's own steps (kernel moves, covered by every theorem above);
+and the thread only ever goes idle on an empty queue. -/
+theorem C04_kernel_thread_running (s : St) :
+    (s.asleep = false → (stepEnterKt s).1 = s) ∧
+    ((stepIdle s).1.asleep = true → s.asleep = true ∨ s.H = s.T) := by
+  refine ⟨fun ha => by simp [stepEnterKt, ha], ?_⟩
+  unfold stepIdle
+  split
+  · rename_i hc; intro _; exact Or.inr hc.2.1
+  · intro ha; exact Or.inl ha
+
 /-- `tail.saturating_sub(head)` instead of `wrapping_sub` (a seeded change, and the
 shape of the defect repaired by 38373ef) is wrong exactly after the tail word wrapped:
 one entry is published, the count passed to the kernel would be 0. -/
